@@ -76,6 +76,7 @@ def build_jobs(tier):
     texts += F.deep_stack_blocks()
     texts += F.f_rule_existing()[:: (24 if tier == "quick" else 3)]
     texts += F.f_mem_consuming()
+    texts += F.f_keccak_pairs()[:: (2 if tier == "quick" else 1)]
     # opcodes the folding code names in lower case only (the AST extraction of rule opcodes does not see them): two- and
     # three-constant forms reach compute_binary / compute_ternary for them
     texts += F.f_rule_singles(["SAR", "SMOD", "BYTE", "SIGNEXTEND", "ADDMOD", "MULMOD", "MOD"], contexts=("stack",))[:: (6 if tier == "quick" else 1)]
